@@ -155,8 +155,26 @@ func (x *Exec) instr(fr *Frame, b *ssa.BasicBlock, st *State, ins ssa.Instructio
 		x.nextInstr(fr, st, v)
 	case *ssa.SliceToArrayPointer:
 		panic(toolErr("SliceToArrayPointer not modelled"))
-	case *ssa.Go, *ssa.Select, *ssa.Send, *ssa.MakeChan:
-		panic(toolErr(fmt.Sprintf("%T outside the modelled subset (goroutines/channels) in %s", ins, fr.fn.Name())))
+	case *ssa.MakeChan:
+		x.chanAssumption()
+		ref := x.declare("chan", "Int")
+		na := x.declare("alloc@ch", "Int")
+		x.assume(mkEq(ref, Term{app("+", st.Alloc, intLit(1)), "Int"}))
+		x.assume(mkEq(na, ref))
+		st.Alloc = na
+		x.markAlloc()
+		x.setVal(fr, v, Val{T: ref, Typ: v.Type()})
+	case *ssa.Send:
+		// the value leaves through the channel; nothing modelled changes
+		x.chanAssumption()
+	case *ssa.Go:
+		// one schedule: the goroutine runs to completion where it is spawned; what it
+		// sends on channels is not tracked (every receive yields an arbitrary value)
+		x.chanAssumption()
+		x.doCall(fr, st, v, v.Common(), types.NewTuple())
+	case *ssa.Select:
+		x.chanAssumption()
+		x.selectInstr(fr, st, v)
 	default:
 		panic(toolErr(fmt.Sprintf("unsupported instruction %T in %s", ins, fr.fn.Name())))
 	}
@@ -273,7 +291,9 @@ func (x *Exec) unop(fr *Frame, st *State, v *ssa.UnOp) {
 			x.setVal(fr, v, Val{T: Term{fmt.Sprintf("(- %s %s)", bigLit(hi).S, a.T.S), "Int"}, Typ: t})
 		}
 	case token.ARROW:
-		panic(toolErr("channel receive outside the modelled subset"))
+		// a receive yields an arbitrary well-typed value (and, with ",ok", an arbitrary flag)
+		x.chanAssumption()
+		fr.vals[v] = x.freshVal(fr.prefix+"recv", v.Type(), st)
 	default:
 		panic(toolErr("unsupported unary op " + v.Op.String()))
 	}
